@@ -99,6 +99,7 @@ def add_targets(E, spec, pid):
     def activate():
         """(re)install the session's view of parse_url - other targets in the same run (C19's own) may use another one"""
         E.caller_contracts["nauyaca.utils.url:parse_url"] = c_parse_url
+        M["asyncio.get_running_loop"] = get_loop          # the CLIENT's loop model (create_future / create_connection)
 
     # urllib.parse quote/unquote as uninterpreted functions (E7): whatever they compute, it is not assumed to be the identity
     uq, qq = z3.Function("unquote", S, S), z3.Function("urllib_quote", S, S)
